@@ -225,11 +225,36 @@ def rule_d(R, ctx):
     R.ob("C16.d", pc, "helper", bool(ext) and bool(pushes), "push_coalesced extends the last entry (%d store(s) to .end) or pushes (%d)" % (len(ext), len(pushes)))
 
 
+def rule_e(R, ctx, rid="C16.e"):
+    Y = ctx.yrs
+    R.rule(rid, "R-GUARD a computed delete set contains every deleted block: in <IdSet as DeleteSet>::from_store the insertion of a "
+                "block's clock range is decided by Block::is_deleted(block) alone (true for deleted items *and* GC ranges, see the "
+                "predicate table) and by no test that narrows the block kind; the range inserted is clock_range() start..end+1 of "
+                "that same block")
+    fn = Y.fn("<yrs::id_set::IdSet as yrs::id_set::DeleteSet>::from_store")
+    v = FnView(fn)
+    ins = [c for c in fn.calls() if re.search(r"(IdRange|IdRanges(<.*>)?|Ranges)::insert$", F.strip_generics(c.name)) or F.strip_generics(c.name).endswith("IdRange::insert")]
+    ins = [c for c in ins if fn.cfg().in_loop(c.bb)]
+    R.floor(rid, "range insertions in from_store", len(ins), 1)
+    for cs, site in ordinal_sites(ins):
+        g = v.guards(cs.bb)
+        whole = any(lit_call(l, "yrs::block::Block::is_deleted", True) for l in g)
+        narrowed = [l.desc for l in g if isinstance(l.polarity, str) and l.polarity in ("Item", "GC", "Skip")] + \
+                   [l.desc for l in g if term_has_call(l.term, "re:Block::as_item$") or term_has_call(l.term, "re:Block::is_item$") or term_has_call(l.term, "re:Block::is_gc$")]
+        rng = v.arg(cs, 1, 12)
+        from_block = term_has_call(rng, "re:Block::clock_range$")
+        R.ob(rid, fn, site, whole and not narrowed and from_block,
+             "every block with Block::is_deleted() contributes its clock_range()" if whole and not narrowed and from_block else
+             "the delete set skips some deleted blocks: decided by Block::is_deleted=%s, narrowed by %s, range from clock_range=%s — "
+             "garbage-collected ranges are deleted content too" % (whole, narrowed[:2], from_block), cs.loc())
+
+
 def check(ctx, R):
     R.run("C16.a", rule_a, ctx)
     R.run("C16.b", rule_b, ctx)
     R.run("C16.c", rule_c, ctx)
     R.run("C16.d", rule_d, ctx)
+    R.run("C16.e", rule_e, ctx)
     from . import preds
     R.run("C16.p", lambda R, c: preds.rule(R, c, "C16.p", ["idmap_contains", "blockrange_contains"]), ctx)
     return {}
